@@ -129,7 +129,7 @@ def addr_gen(rng, tier):
             add("dial", uh, un, dp, exp=un, cls="da-unix")
             add("net", un, cls="unix")
             add("net", join(name, port or dp), cls="tcp")
-    # finding K5: bracketed IPv6 dial_addr without a port
+    # K5 (fixed): bracketed IPv6 dial_addr without a port
     for v in V6_SHAPES[:6] + [rand_v6(rng) for _ in range(4)]:
         dp = rng.choice(DEFAULTS)
         add("dial", "dns.example", "[" + v + "]", dp, exp=join(v, dp), cls="dabr")
